@@ -123,6 +123,31 @@ theorem keeps_property (pkg : String) (defs : Defs) (fuel : Nat) (root : String)
     obtain ⟨pa, po, pn, pl, pp, pad, pi, pi2⟩ := sk
     exact ⟨o, fs, f, rfl, hT, hsp, hsn, hf, hname, hreq, builds_scalar hsc hbf, hbuilt⟩
 
+/-- the object the front-end declares for an object definition: a struct whose fields are built property by property -/
+theorem keeps_object (pkg : String) (defs : Defs) (fuel : Nat) (root : String) (S : Schemas)
+    (hS : frontEnd pkg defs fuel (refTo root) = .ok S)
+    {s : JS} (hroot : lookupDef defs root = some s) (hobj : isObjectNode s = true) :
+    ∃ o fs, Schemas.locateObject S pkg root = some o ∧ o.ty = .struct (sortFields fs) [] none m0 ∧
+      o.selfPkg = pkg ∧ o.selfName = root ∧ FieldsBuilt pkg defs s.attrs.required (propsOf s) fs := by
+  obtain ⟨W, hhas⟩ := frontEnd_spec pkg defs fuel root S hS
+  cases ho : Schemas.locateObject S pkg root with
+  | none => simp [ho] at hhas
+  | some o =>
+    obtain ⟨js, h1, h2⟩ := W.obj root o ho
+    rw [hroot] at h1; cases h1
+    obtain ⟨_, hsp, hsn⟩ := W.self root o ho
+    obtain ⟨a, oneOf, anyOf, allOf, props, addl, items, items2020⟩ := s
+    obtain ⟨fs, hT, hbuilt⟩ := builds_object hobj h2
+    exact ⟨o, fs, rfl, hT, hsp, hsn, hbuilt⟩
+
+/-- the fields of a FLAT object definition (every property a typed scalar), from the source keywords alone -/
+def rawFields (req : List String) : List (String × JS) → Option (List Field)
+  | [] => some []
+  | p :: ps =>
+    match scalarNode p.2, rawFields req ps with
+    | some t, some fs => some ({ name := p.1, ty := scalarOf p.2.attrs t, required := req.contains p.1 } :: fs)
+    | _, _ => none
+
 /-! ### what `scalarOf` carries (statements the compositions read) -/
 
 /-- the value the source declares as default, with the dynamic Go type the generator gives it -/
